@@ -4,6 +4,7 @@ pub mod c02;
 pub mod c02_ilv;
 pub mod c03;
 pub mod c04;
+pub mod c05;
 pub mod cluster;
 pub mod conc;
 pub mod c06;
@@ -63,6 +64,7 @@ pub fn dispatch(run: &mut Run) -> bool {
         "C02" => c02::run(run),
         "C03" => c03::run(run),
         "C04" => c04::run(run),
+        "C05" => c05::run(run),
         "C06" => c06::run(run),
         "C08" => c08::run(run),
         "C09" => c09::run(run),
